@@ -94,6 +94,9 @@ type G struct {
 	R         *rand.Rand
 	NetworkID base.NetworkID
 	Nodes     []LocalNode // the suffrage of this generator
+	// B, when set, replaces numeric draws of one field class by a boundary
+	// value (see boundary.go); nil: ordinary generation.
+	B *Bound
 }
 
 const alnum = "abcdefghijklmnopqrstuvwxyz0123456789"
@@ -156,6 +159,10 @@ func (g *G) Node() base.Node {
 
 // Height is a non-genesis height (>= 2 so that height-1 is still above genesis).
 func (g *G) Height() base.Height {
+	return g.bHeight(g.ordinaryHeight())
+}
+
+func (g *G) ordinaryHeight() base.Height {
 	switch g.R.Intn(4) {
 	case 0:
 		return base.Height(2 + g.R.Intn(5))
@@ -167,6 +174,10 @@ func (g *G) Height() base.Height {
 }
 
 func (g *G) Round() base.Round {
+	return g.bRound(g.ordinaryRound())
+}
+
+func (g *G) ordinaryRound() base.Round {
 	if g.R.Intn(2) == 0 {
 		return 0
 	}
@@ -179,6 +190,10 @@ func (g *G) Point() base.Point {
 }
 
 func (g *G) Threshold() base.Threshold {
+	return g.bThreshold(g.ordinaryThreshold())
+}
+
+func (g *G) ordinaryThreshold() base.Threshold {
 	switch g.R.Intn(3) {
 	case 0:
 		return base.MaxThreshold
